@@ -31,7 +31,7 @@ theorem add_spin_rule (uf : UFunc) (hu : uf = .add ∨ uf = .subtract) (sub : Bo
       arrayUfunc { uf := uf, args := [.modes m1, .modes m2] } = .err .notImplemented
       ∧ methodAdd m1 (.modes m2) sub = .err .valueError) := by
   intro good
-  have hc := Lemmas.Modes.addCore_ok m1 m1 m2 ld hb w1 w2
+  have hc : addCore m1 m1 m2 none = good := Lemmas.Modes.addCore_ok m1 m1 m2 ld none hb w1 w2 rfl
   have hm : methodAdd m1 (.modes m2) sub
       = if m1.md.spin ≠ m2.md.spin then .err .valueError else addCore m1 m1 m2 none := rfl
   constructor
@@ -62,6 +62,55 @@ theorem add_shape_mismatch (uf : UFunc) (hu : uf = .add ∨ uf = .subtract) (sub
 
 example : ∃ m1 m2 : Obj, m1.md.spin = m2.md.spin ∧ bcast m1.lead m2.lead = none :=
   ⟨⟨⟨0, 1, none⟩, [2], 4⟩, ⟨⟨0, 1, none⟩, [3], 4⟩, by decide⟩
+
+/-- `np.add(f, g, out=o)` / `np.subtract` / `f += g` / `f -= g` for equal spins: the output must have exactly the
+    result's shape (ValueError otherwise, e.g. `f += g` with `g.ell_max > f.ell_max`); then the call returns the same
+    Modes (a view of `o`) as the call without `out`, and a Modes held in `out` receives the result's metadata. -/
+theorem add_out_outcome (uf : UFunc) (hu : uf = .add ∨ uf = .subtract) (m1 m2 : Obj) (ld : List Nat) (out : Operand)
+    (w1 : WellFormed m1) (w2 : WellFormed m2) (hs : m1.md.spin = m2.md.spin) (hb : bcast m1.lead m2.lead = some ld) :
+    let L := max m1.md.ellMax m2.md.ellMax
+    let mt : Meta := ⟨m1.md.spin, L, m1.md.trunc⟩
+    (out.shape = ld ++ [(Ysize 0 L).toNat] →
+      arrayUfunc { uf := uf, args := [.modes m1, .modes m2], out := some out }
+        = .modes ⟨mt, ld, (Ysize 0 L).toNat⟩ (if out.isModes then some mt else none))
+    ∧ (out.shape ≠ ld ++ [(Ysize 0 L).toNat] →
+      arrayUfunc { uf := uf, args := [.modes m1, .modes m2], out := some out } = .err .valueError) := by
+  intro L mt
+  constructor
+  · intro ho
+    have ho' : outShapeOk (ld ++ [(Ysize 0 L).toNat]) (some out) = true := by simp [outShapeOk, ho]
+    rw [Lemmas.Modes.ufunc_addsub_modes uf hu, if_neg (by simpa using hs),
+      Lemmas.Modes.addCore_ok m1 m1 m2 ld (some out) hb w1 w2 ho']
+    cases out <;> rfl
+  · intro ho
+    have ho' : outShapeOk (ld ++ [(Ysize 0 L).toNat]) (some out) = false := by simp [outShapeOk, ho]
+    rw [Lemmas.Modes.ufunc_addsub_modes uf hu, if_neg (by simpa using hs),
+      Lemmas.Modes.addCore_badout m1 m1 m2 ld (some out) hb ho']
+
+example : ∃ (m1 m2 : Obj) (ld : List Nat) (out : Operand), WellFormed m1 ∧ WellFormed m2 ∧ m1.md.spin = m2.md.spin
+    ∧ bcast m1.lead m2.lead = some ld ∧ out.shape = ld ++ [(Ysize 0 (max m1.md.ellMax m2.md.ellMax)).toNat] :=
+  ⟨⟨⟨1, 2, none⟩, [], 9⟩, ⟨⟨1, 1, none⟩, [], 4⟩, [], .modes ⟨⟨1, 2, none⟩, [], 9⟩, by decide⟩
+example : ∃ (m1 m2 : Obj) (ld : List Nat) (out : Operand), WellFormed m1 ∧ WellFormed m2 ∧ m1.md.spin = m2.md.spin
+    ∧ bcast m1.lead m2.lead = some ld ∧ out.shape ≠ ld ++ [(Ysize 0 (max m1.md.ellMax m2.md.ellMax)).toNat] :=
+  ⟨⟨⟨1, 1, none⟩, [], 4⟩, ⟨⟨1, 2, none⟩, [], 9⟩, [], .modes ⟨⟨1, 1, none⟩, [], 4⟩, by decide⟩
+
+/-- The entries: with `out=` (any buffer `bo`, whatever it held before, also when it is the buffer `b1` or `b2` of
+    an operand) the output row is exactly the row the call without `out` builds in a fresh array from the
+    operands' content before the call; no other buffer is changed.  (`comb` is `+` or `−`; `k1`, `k2` the operands'
+    lengths.) -/
+theorem add_out_overwrites {β : Type} (comb : β → β → β) (zero : β) (k1 k2 : Nat) (mem : Nat → Row β)
+    (b1 b2 fresh bo : Nat) :
+    (addEntries comb zero k1 k2 mem b1 b2 fresh (some bo)).1 bo
+      = (addEntries comb zero k1 k2 mem b1 b2 fresh none).1 fresh
+    ∧ (addEntries comb zero k1 k2 mem b1 b2 fresh (some bo)).2 = bo
+    ∧ (∀ i, i ≠ bo → (addEntries comb zero k1 k2 mem b1 b2 fresh (some bo)).1 i = mem i)
+    ∧ (∀ p, ((addEntries comb zero k1 k2 mem b1 b2 fresh none).1 fresh).get p
+        = if p < k2 then comb (if p < k1 then (mem b1).get p else zero) ((mem b2).get p)
+          else if p < k1 then (mem b1).get p else zero) := by
+  obtain ⟨a, b, c⟩ := Lemmas.Modes.addEntries_out comb zero k1 k2 mem b1 b2 fresh bo
+  refine ⟨a, b, c, ?_⟩
+  intro p
+  simp [addEntries, Row.sliceSet, Row.sliceAcc]
 
 /-- Adding or subtracting anything with a non-zero entry (scalar or array, either side, any `out`) is rejected:
     NotImplemented (TypeError) from the ufunc / operators, ValueError from the methods. -/
